@@ -423,6 +423,28 @@ pub assume_specification<T, A: core::alloc::Allocator> [alloc::collections::VecD
 pub assume_specification<T, A: core::alloc::Allocator> [alloc::collections::VecDeque::<T, A>::is_empty] (_0: &alloc::collections::VecDeque<T, A>) -> (b: bool)
     ensures b == (_0@.len() == 0);
 
+// more of VecDeque's API (so that code using it is decided instead of being rejected as unsupported)
+pub assume_specification<T, A: core::alloc::Allocator> [alloc::collections::VecDeque::<T, A>::front] (_0: &alloc::collections::VecDeque<T, A>) -> (r: Option<&T>)
+    ensures _0@.len() == 0 ==> r is None, _0@.len() > 0 ==> r == Some(&_0@[0]);
+pub assume_specification<T, A: core::alloc::Allocator> [alloc::collections::VecDeque::<T, A>::back] (_0: &alloc::collections::VecDeque<T, A>) -> (r: Option<&T>)
+    ensures _0@.len() == 0 ==> r is None, _0@.len() > 0 ==> r == Some(&_0@[_0@.len() - 1]);
+pub assume_specification<T, A: core::alloc::Allocator> [alloc::collections::VecDeque::<T, A>::get] (_0: &alloc::collections::VecDeque<T, A>, _1: usize) -> (r: Option<&T>)
+    ensures _1 >= _0@.len() ==> r is None, _1 < _0@.len() ==> r == Some(&_0@[_1 as int]);
+pub assume_specification<T, A: core::alloc::Allocator> [alloc::collections::VecDeque::<T, A>::swap_remove_back] (_0: &mut alloc::collections::VecDeque<T, A>, _1: usize) -> (r: Option<T>)
+    ensures
+        _1 >= old(_0)@.len() ==> r is None && final(_0)@ == old(_0)@,
+        _1 < old(_0)@.len() ==> r == Some(old(_0)@[_1 as int])
+            && final(_0)@ =~= old(_0)@.update(_1 as int, old(_0)@[old(_0)@.len() - 1]).take(old(_0)@.len() - 1);
+pub assume_specification<T, A: core::alloc::Allocator> [alloc::collections::VecDeque::<T, A>::swap_remove_front] (_0: &mut alloc::collections::VecDeque<T, A>, _1: usize) -> (r: Option<T>)
+    ensures
+        _1 >= old(_0)@.len() ==> r is None && final(_0)@ == old(_0)@,
+        _1 < old(_0)@.len() ==> r == Some(old(_0)@[_1 as int])
+            && final(_0)@ =~= old(_0)@.update(_1 as int, old(_0)@[0]).skip(1);
+pub assume_specification<T, A: core::alloc::Allocator> [alloc::collections::VecDeque::<T, A>::as_slices] (_0: &alloc::collections::VecDeque<T, A>) -> (r: (&[T], &[T]))
+    ensures 0 <= vd_split(_0) <= _0@.len(), r.0@ == _0@.take(vd_split(_0)), r.1@ == _0@.skip(vd_split(_0));
+/// where the ring buffer of a VecDeque wraps around (unknown, but fixed while the deque is not modified)
+pub uninterp spec fn vd_split<T, A: core::alloc::Allocator>(v: &alloc::collections::VecDeque<T, A>) -> int;
+
 /*@@WOVEN@@*/
 
 } // verus!
